@@ -2,7 +2,7 @@
 """Run every kept seeded change (seeded/<name>/) against the check of its property and record
 the verdicts in seeded/RESULTS.json (input of the table in DESIGN.md section 7.4).
 
-usage: tools/seedsweep.py [name-filter] [--tier quick]
+usage: tools/seedsweep.py [name-filter] [--fast] [--all]
 """
 import json
 import os
@@ -18,12 +18,28 @@ for name in sorted(os.listdir(os.path.join(HERE, 'seeded'))):
     if not os.path.isdir(sdir) or flt not in name:
         continue
     meta = json.load(open(os.path.join(sdir, 'meta.json')))
-    res = subprocess.run([os.path.join(HERE, 'tools', 'seedrun.py'), sdir], capture_output=True, text=True)
+    if name in results and results[name].get('verdict_quick') == 'DETECTED' and '--all' not in sys.argv:
+        continue            # (resumable: delete RESULTS.json or pass --all to start over)
+    budget = 'full'
+    env = dict(os.environ)
+    if '--fast' in sys.argv:
+        # first pass with a third of the generated cases and no shrinking; a miss is re-run in full
+        env.update(VERIF_CASES_SCALE='0.3', VERIF_MAX_SHRINK='0')
+        budget = '0.3 x cases'
+    res = subprocess.run([os.path.join(HERE, 'tools', 'seedrun.py'), sdir], capture_output=True, text=True,
+                         env=env)
     line = (res.stdout.strip().splitlines() or [''])[-1]
     verdict = 'DETECTED' if ' DETECTED ' in line else 'MISSED' if ' MISSED ' in line else 'ERROR'
+    if verdict != 'DETECTED' and '--fast' in sys.argv:
+        budget = 'full'
+        env.pop('VERIF_CASES_SCALE')
+        res = subprocess.run([os.path.join(HERE, 'tools', 'seedrun.py'), sdir], capture_output=True,
+                             text=True, env=env)
+        line = (res.stdout.strip().splitlines() or [''])[-1]
+        verdict = 'DETECTED' if ' DETECTED ' in line else 'MISSED' if ' MISSED ' in line else 'ERROR'
     buckets = line.split('  ', 1)[1].strip() if '  ' in line else ''
     results[name] = {'property': meta.get('property'), 'summary': meta.get('summary'),
-                     'needs': meta.get('needs'), 'verdict_quick': verdict,
+                     'needs': meta.get('needs'), 'verdict_quick': verdict, 'budget': budget,
                      'first_buckets': [b.split(' count=')[0] for b in buckets.split('; ')][:3]}
     print(name, verdict, results[name]['first_buckets'])
     sys.stdout.flush()
